@@ -27,7 +27,7 @@ Definition requested_version (r : req) : ver :=
 Definition b_nsp (o : option shb) : Z := match o with Some s => sb_nsp s | None => 0 end.
 Definition b_nout (o : option shb) : Z := match o with Some s => sb_nout s | None => 0 end.
 Definition tx_shape (b : built) : shape :=
-  {| sh_tin := map (fun _ => P2PKH_STANDARD_INPUT_SIZE) (b_tin b);
+  {| sh_tin := map snd (b_tin b);
      sh_tout := map snd (b_tout b);
      sh_sin := b_nsp (b_sap b); sh_sout := b_nout (b_sap b);
      sh_orc := b_nout (b_orc b); sh_iw := b_nout (b_iw b) |}.
@@ -63,7 +63,7 @@ Definition pool_okb (o : option shb) (spends outs : list Z) : bool :=
 
 Definition pair_z_eqb := pair_eqb Z.eqb Z.eqb.
 Definition contents_okb (ops : list op) (b : built) : bool :=
-  list_eqb Z.eqb (b_tin b) (tin_vals ops)
+  list_eqb pair_z_eqb (b_tin b) (tin_vs ops)
   && list_eqb pair_z_eqb (b_tout b) (tout_vs ops)
   && pool_okb (b_sap b) (ss_vals ops) (so_vals ops)
   && pool_okb (b_orc b) (os_vals ops) (oo_vals ops ++ oc_vals ops)
@@ -100,10 +100,10 @@ Definition header_okb (r : req) (b : built) : bool :=
 Definition needs_sapling (ops : list op) := nonempty (ss_vals ops) || nonempty (so_vals ops).
 Definition needs_orchard (r : req) (ops : list op) :=
   nonempty (os_vals ops) || nonempty (oo_vals ops) || nonempty (oc_vals ops)
-  || (r_orc r && branch_has_orchard (branch_at (r_net r) (r_height r)) && p_req (r_opad r)).
+  || ((is_deferred r || r_orc r && branch_has_orchard (branch_at (r_net r) (r_height r))) && p_req (r_opad r)).
 Definition needs_ironwood (r : req) (ops : list op) :=
   nonempty (is_vals ops) || nonempty (io_vals ops)
-  || (r_iw r && branch_has_ironwood (branch_at (r_net r) (r_height r)) && p_req (r_ipad r)).
+  || ((is_deferred r || r_iw r && branch_has_ironwood (branch_at (r_net r) (r_height r))) && p_req (r_ipad r)).
 Definition version_refusable (r : req) (ops : list op) (v : ver) : bool :=
   let br := branch_at (r_net r) (r_height r) in
   negb (valid_in_branch v br)
@@ -114,9 +114,9 @@ Definition version_refusable (r : req) (ops : list op) (v : ver) : bool :=
 (** ---- documented panics (explicit [expect]/[panic!] in the code), as classes of requests *)
 Definition panic_class (r : req) : bool :=
   (* sapling Builder::value_balance::<ZatBalance>().expect(..): |Sapling balance| > MAX_MONEY *)
-  (r_sap r && negb (in_bal (sapling_balance (r_ops r))))
+  (negb (is_deferred r) && r_sap r && negb (in_bal (sapling_balance (r_ops r))))
   (* sighash_v4: pre-Overwinter transactions cannot be signed *)
-  || (match r_route r with Pczt => false | _ => true end
+  || (match r_route r with Pczt | Deferred => false | _ => true end
       && negb (has_overwinter (requested_version r))).
 
 (** ---- the content clause as a proposition *)
